@@ -2,6 +2,7 @@ package interp
 
 import (
 	"fmt"
+	"os"
 	"go/types"
 	"sort"
 	"strings"
@@ -525,7 +526,9 @@ func (e *Engine) RunPath(entry *ssa.Function, prefix []int64) (res *PathResult, 
 				if e.cfg.Trace {
 					panic(r)
 				}
-				res.Detail += "\n" + shortStack()
+				if os.Getenv("VCHECK_STACK") != "" {
+					res.Detail += "\n" + shortStack()
+				}
 			}
 		}()
 		e.callFunction(nil, entry, nil, nil)
